@@ -2,6 +2,9 @@ import Verif.Model.Ops
 import Verif.Spec.Ops
 import Verif.Proofs.Ops
 
+import Verif.Proofs.RequiredUnions
+import Verif.Properties.C11
+
 /-!
 # C14 — operation lookups agree with the document
 
@@ -65,5 +68,32 @@ theorem securityRequirements_rule (d op : J) :
 theorem empty_security_disables (d op : J) (h : op.get? "security" = some (.arr [])) :
     Ops.securityRequirementsFor d op = some [] ∧ Ops.securityDefinitionsFor d op = none :=
   Proofs.Ops.empty_security_disables d op h
+
+/-! ### required media types and security schemes: the unions over the document and its operations -/
+
+/-- `RequiredConsumes()` / `RequiredProduces()` / `RequiredSecuritySchemes()` read the string sets of the
+    analyzer.  A media type is reported iff the document or one of its operations (under any of the seven
+    methods) lists it; a security scheme is reported iff a requirement of the document or of an operation
+    names it.  (C11's well-formedness of names is only needed to reuse the decomposition of the log.) -/
+theorem required_consumes_union (f : Facts) (hf : C11.FactsOK f) (d : J) (hwf : C11.WF d) (s : String) :
+    s ∈ (Analyzer.analyze f d).filterMap IndexProof.selConsumes ↔
+      s ∈ d.getStrs "consumes" ∨ ∃ o ∈ Spec.Index.operations d, s ∈ o.2.2.2.getStrs "consumes" := by
+  rw [(IndexProof.setView_perm IndexProof.selConsumes (by intro e he; cases e <;> simp_all [IndexProof.isSetEnt, IndexProof.selConsumes])
+    f hf.methods hf.defaultHeaderEnums d hwf.toProof).mem_iff, IndexProof.junk_consumes]
+  simp [List.mem_flatMap]
+
+theorem required_produces_union (f : Facts) (hf : C11.FactsOK f) (d : J) (hwf : C11.WF d) (s : String) :
+    s ∈ (Analyzer.analyze f d).filterMap IndexProof.selProduces ↔
+      s ∈ d.getStrs "produces" ∨ ∃ o ∈ Spec.Index.operations d, s ∈ o.2.2.2.getStrs "produces" := by
+  rw [(IndexProof.setView_perm IndexProof.selProduces (by intro e he; cases e <;> simp_all [IndexProof.isSetEnt, IndexProof.selProduces])
+    f hf.methods hf.defaultHeaderEnums d hwf.toProof).mem_iff, IndexProof.junk_produces]
+  simp [List.mem_flatMap]
+
+theorem required_security_union (f : Facts) (hf : C11.FactsOK f) (d : J) (hwf : C11.WF d) (s : String) :
+    s ∈ (Analyzer.analyze f d).filterMap IndexProof.selAuth ↔
+      s ∈ IndexProof.authNames d ∨ ∃ o ∈ Spec.Index.operations d, s ∈ IndexProof.authNames o.2.2.2 := by
+  rw [(IndexProof.setView_perm IndexProof.selAuth (by intro e he; cases e <;> simp_all [IndexProof.isSetEnt, IndexProof.selAuth])
+    f hf.methods hf.defaultHeaderEnums d hwf.toProof).mem_iff, IndexProof.junk_auth]
+  simp [List.mem_flatMap]
 
 end C14
